@@ -244,10 +244,30 @@ def check(ctx):
     rets = returns_of(an, gp)
     ok = bool(rets) and not falls_through(an, gp)
     lits = []
+
+    def method_literal(r, e):
+        """the concrete method a returned component stands for: a literal, or a local pinned by an equality test that every
+        path to the return has passed (`if resolved == "aes": return Aes(...), resolved`), or a local with constant sources"""
+        if isinstance(e, ast.Constant):
+            return e.value
+        if isinstance(e, ast.Name):
+            for t, tr in dominating_guards(an, gp, r):
+                c = t.ast
+                if tr and isinstance(c, ast.Compare) and len(c.ops) == 1 and isinstance(c.ops[0], ast.Eq) and isinstance(c.left, ast.Name) \
+                        and c.left.id == e.id and isinstance(c.comparators[0], ast.Constant):
+                    return c.comparators[0].value
+            srcs = value_sources(gp, e, r)
+            vals = {pl.value if k == "expr" and isinstance(pl, ast.Constant) else None for k, pl in srcs}
+            if len(vals) == 1 and None not in vals:
+                return vals.pop()
+        return None
+    lit_of = {}
     for r in rets:
         v = r.ast.value
-        if isinstance(v, ast.Tuple) and len(v.elts) == 2 and isinstance(v.elts[1], ast.Constant) and v.elts[1].value in ("aes", "xor"):
-            lits.append(v.elts[1].value)
+        m_ = method_literal(r, v.elts[1]) if isinstance(v, ast.Tuple) and len(v.elts) == 2 else None
+        if m_ in ("aes", "xor"):
+            lits.append(m_)
+            lit_of[id(r)] = m_
         else:
             ok = False
     ctx.ob("method.concrete", gp, "every returned (provider, method) names a concrete method", ok,
@@ -256,11 +276,11 @@ def check(ctx):
     # provider class matches the literal
     for r in rets:
         v = r.ast.value
-        if isinstance(v, ast.Tuple) and len(v.elts) == 2 and isinstance(v.elts[0], ast.Call) and isinstance(v.elts[1], ast.Constant):
+        if isinstance(v, ast.Tuple) and len(v.elts) == 2 and isinstance(v.elts[0], ast.Call) and id(r) in lit_of:
             cls = ast.unparse(v.elts[0].func).lower()
-            good = str(v.elts[1].value) in cls
+            good = str(lit_of[id(r)]) in cls
             ctx.ob("method.matches-provider", gp, v, good, "provider class and recorded method agree" if good else
-                   "recorded method %r does not match provider %s" % (v.elts[1].value, ast.unparse(v.elts[0].func)), node=r)
+                   "recorded method %r does not match provider %s" % (lit_of[id(r)], ast.unparse(v.elts[0].func)), node=r)
     g = an.cfg(encrypt)
     for r in returns_of(an, encrypt):
         v = r.ast.value
